@@ -26,7 +26,7 @@ Definition hb (m : msg) (c : clock) : Prop := we m <= get c (wt m).
 
 Inductive act := ARead | AWrite | AClone | ARelease | AFree | AProbe (p : nat) | ASpawn (c k : nat) | AJoin (c : nat)
                  | AFence | AReadM
-                 | ALend (c : nat) | AReadB | AJoinB (c : nat).
+                 | ALend (c : nat) | AReadB | AJoinB (c : nat) | ACloneB.
 Inductive err := Race | UAF | DoubleFree.
 Inductive res := Ok (s : st) | Err (e : err) | Stuck.
 
@@ -121,7 +121,7 @@ Definition step (s : st) (t : nat) (a : act) : res :=
             ths := upd (ths s) t {| clk := c'; pend := pend x; refs := refs x; excl := excl x;
                                     mustfree := mustfree x; started := true; lend := lend x |} |}
   | ALend c =>
-      (* a scoped thread is given &handle: it may read through it; the lender keeps its reference and, while
+      (* a scoped thread is given &handle: it may read and clone through it; the lender keeps its reference and, while
          the loan lasts, only reads, clones, lends again, fences and joins (no &mut method: borrowck) *)
       if Nat.eqb c t || negb (Nat.ltb c (length (ths s))) || started (getth s c) || negb (Nat.ltb 0 (refs x))
          || negb (Nat.eqb (lend x) 0)
@@ -148,6 +148,15 @@ Definition step (s : st) (t : nat) (a : act) : res :=
                                mustfree := mustfree x; started := true; lend := lend x |} in
       Ok (with_th s1 c {| clk := clk y; pend := pend y; refs := refs y; excl := excl y; mustfree := mustfree y;
                           started := started y; lend := 0 |})
+  | ACloneB =>
+      (* clone(&borrowed): a relaxed increment through the lender's reference; the clone is the borrower's own *)
+      if Nat.eqb (lend x) 0 then Stuck else
+      if negb (live s) then Err UAF else
+      let c' := tick (clk x) t in
+      let m := {| val := S (val (hdm s)); view := view (hdm s); wt := t; we := get c' t |} in
+      Ok {| msgs := m :: msgs s; Wc := Wc s; Rc := Rc s; live := live s;
+            ths := upd (ths s) t {| clk := c'; pend := join (pend x) (view (hdm s)); refs := S (refs x);
+                                    excl := false; mustfree := mustfree x; started := true; lend := lend x |} |}
   end.
 
 (* initial state: thread 0 allocated the buffer *)
